@@ -1,4 +1,5 @@
 // C12: GetEigenSystem is a valid eigen-decomposition for every Hermitian input (self-certifying oracle).
+#define VF_EARLY
 #include "bind.hpp"
 #include <gsl/gsl_vector.h>
 using namespace vf;
@@ -68,6 +69,7 @@ int main(int argc, char** argv) {
     for (int w = 0; w < 2; w++) { Mat W = unitary(d, w), Wd = ref::dagger(W);
       for (double eps : {1e-6, 1e-9, 1e-12, 0.0}) { std::vector<double> e(d); for (int i = 0; i < d; i++) e[i] = (i == 0) ? 1.0 : (i == 1 ? 1.0 + eps : (double)i); check(d, B.proj(W * ref::diag(e) * Wd), eps == 0 ? "degenerate-rotated" : "near-degenerate"); } }
   }
+  check_early({12});
   finish();
   return 0;
 }
